@@ -50,7 +50,7 @@ CLAIMED["C04"] = dict(
     ref="§3 C04")
 CLAIMED["C05"] = dict(
     technique="static analysis: symbolic interpretation of MIR expression trees (the three shuffle role functions, mask_and_shuffle and their closures evaluated over GF(2)-linear forms with one symbol per pairwise mask and message matching by step/sender/receiver; nothing is executed), dominator ordering with await settlement and `?` edges (verify before release, same table), verdict-guard polarity of every hash comparison, path rules on the whole-table transfers, field-order symmetry of writer/reader chains, constant relations on tag offsets",
-    text="Decides the share algebra of the three-party shuffle (outputs XOR to the input row, all pairwise masks cancel, the result is a consistent replicated sharing, only equally permuted tables are combined, three rounds keyed by three different helper pairs, verification tables pair up), the plumbing of the whole-table transfers on all paths (nothing truncated or dropped silently, empty tables, size word) and the detection wiring of the malicious shuffle: MAC tags are added before shuffling, verify_shuffle is awaited and `?`-propagated before the rows are released from the same table, each documented hash comparison is present, compares a local with a received hash and gates Ok; no Ok return of verify_shuffle or of a per-role verifier bypasses the key opening, a comparison or a hash send for any input (e.g. an empty output table), and the tags are recomputed with the opened keys; report fields are packed and unpacked in the same order and the tag is cut at the share's byte size. The permutation/multiset property and output-share consistency are numerical and not decided.",
+    text="Decides the share algebra of the three-party shuffle (outputs XOR to the input row, all pairwise masks cancel, the result is a consistent replicated sharing, only equally permuted tables are combined, three rounds keyed by three different helper pairs, verification tables pair up), the plumbing of the whole-table transfers on all paths (nothing truncated or dropped silently, empty tables, size word) and the detection wiring of the malicious shuffle: MAC tags are added before shuffling, verify_shuffle is awaited and `?`-propagated before the rows are released from the same table, each documented hash comparison is present, compares a local with a received hash and gates Ok; no Ok return of verify_shuffle or of a per-role verifier bypasses the key opening, a comparison or a hash send for any input (e.g. an empty output table), the tags are recomputed with the opened keys, and the hash that is compared absorbs every element of the table it is given; every shard takes part in each resharding step of the shuffle whatever it holds itself; report fields are packed and unpacked in the same order and the tag is cut at the share's byte size. The permutation/multiset property and output-share consistency are numerical and not decided.",
     ref="§3 C05")
 
 CLAIMED["C11"] = dict(
@@ -74,7 +74,7 @@ CLAIMED["C12"] = dict(
 
 CLAIMED["C03"] = dict(
     technique="static analysis: closed-form relations between compiler-evaluated constants (including the cfg(not(test)) production values no test compiles), expression-shape extraction of the Fiat-Shamir challenge map, verdict-guard polarity, prover/verifier table pairing census",
-    text="Decides the constant and wiring clauses: the recursion capacity FRF*(CRF-1)*CRF^(MAX-2) covers 4*TARGET_PROOF_SIZE for the constants compiled into each analysed configuration (0.66 % margin in production) and ProofBatch::generate asserts that bound; batch sizes derived from TARGET_PROOF_SIZE are rounded down; generator alias arities, ARRAY_LEN and PRSS_RECORDS_PER_BATCH agree; the challenge is mapped into [exclude_to, prime); the proof-field constants are what their names say; BatchToVerify::verify fails exactly on a non-zero recombined difference; verifier table indices are paired with the right table. The algebraic identity of the u/v tables and soundness against bit flips are not decided.",
+    text="Decides the constant and wiring clauses: the recursion capacity FRF*(CRF-1)*CRF^(MAX-2) covers 4*TARGET_PROOF_SIZE for the constants compiled into each analysed configuration (0.66 % margin in production) and ProofBatch::generate asserts that bound; batch sizes derived from TARGET_PROOF_SIZE are rounded down; generator alias arities, ARRAY_LEN and PRSS_RECORDS_PER_BATCH agree; the challenge is mapped into [exclude_to, prime); the proof-field constants are what their names say; BatchToVerify::verify fails exactly on a non-zero recombined difference; verifier table indices are paired with the right table; the hash behind every challenge and every exchanged proof hash absorbs each element of its whole input (no element can be altered without changing it) and refuses an empty input. The algebraic identity of the u/v tables and soundness against bit flips are not decided.",
     ref="§3 C03")
 
 CLAIMED["C06"] = dict(
